@@ -7,6 +7,11 @@ import (
 
 func OpenMath(L *LState) int {
 	mod := L.RegisterModule(MathLibName, mathFuncs).(*LTable)
+	// every state draws from its own generator: states in different goroutines do not share a sequence
+	rng := L.NewUserData()
+	rng.Value = rand.New(rand.NewSource(rand.Int63()))
+	mod.RawSetString("random", L.NewClosure(mathRandom, rng))
+	mod.RawSetString("randomseed", L.NewClosure(mathRandomseed, rng))
 	mod.RawSetString("pi", LNumber(math.Pi))
 	mod.RawSetString("huge", LNumber(math.MaxFloat64))
 	L.Push(mod)
@@ -14,35 +19,33 @@ func OpenMath(L *LState) int {
 }
 
 var mathFuncs = map[string]LGFunction{
-	"abs":        mathAbs,
-	"acos":       mathAcos,
-	"asin":       mathAsin,
-	"atan":       mathAtan,
-	"atan2":      mathAtan2,
-	"ceil":       mathCeil,
-	"cos":        mathCos,
-	"cosh":       mathCosh,
-	"deg":        mathDeg,
-	"exp":        mathExp,
-	"floor":      mathFloor,
-	"fmod":       mathFmod,
-	"frexp":      mathFrexp,
-	"ldexp":      mathLdexp,
-	"log":        mathLog,
-	"log10":      mathLog10,
-	"max":        mathMax,
-	"min":        mathMin,
-	"mod":        mathMod,
-	"modf":       mathModf,
-	"pow":        mathPow,
-	"rad":        mathRad,
-	"random":     mathRandom,
-	"randomseed": mathRandomseed,
-	"sin":        mathSin,
-	"sinh":       mathSinh,
-	"sqrt":       mathSqrt,
-	"tan":        mathTan,
-	"tanh":       mathTanh,
+	"abs":   mathAbs,
+	"acos":  mathAcos,
+	"asin":  mathAsin,
+	"atan":  mathAtan,
+	"atan2": mathAtan2,
+	"ceil":  mathCeil,
+	"cos":   mathCos,
+	"cosh":  mathCosh,
+	"deg":   mathDeg,
+	"exp":   mathExp,
+	"floor": mathFloor,
+	"fmod":  mathFmod,
+	"frexp": mathFrexp,
+	"ldexp": mathLdexp,
+	"log":   mathLog,
+	"log10": mathLog10,
+	"max":   mathMax,
+	"min":   mathMin,
+	"mod":   mathMod,
+	"modf":  mathModf,
+	"pow":   mathPow,
+	"rad":   mathRad,
+	"sin":   mathSin,
+	"sinh":  mathSinh,
+	"sqrt":  mathSqrt,
+	"tan":   mathTan,
+	"tanh":  mathTanh,
 }
 
 func mathAbs(L *LState) int {
@@ -183,23 +186,34 @@ func mathRad(L *LState) int {
 	return 1
 }
 
+func mathRng(L *LState) *rand.Rand {
+	return L.Get(UpvalueIndex(1)).(*LUserData).Value.(*rand.Rand)
+}
+
 func mathRandom(L *LState) int {
+	rng := mathRng(L)
 	switch L.GetTop() {
 	case 0:
-		L.Push(LNumber(rand.Float64()))
+		L.Push(LNumber(rng.Float64()))
 	case 1:
 		n := L.CheckInt(1)
-		L.Push(LNumber(rand.Intn(n) + 1))
+		if n < 1 {
+			L.ArgError(1, "interval is empty")
+		}
+		L.Push(LNumber(rng.Intn(n) + 1))
 	default:
 		min := L.CheckInt(1)
-		max := L.CheckInt(2) + 1
-		L.Push(LNumber(rand.Intn(max-min) + min))
+		max := L.CheckInt(2)
+		if min > max {
+			L.ArgError(2, "interval is empty")
+		}
+		L.Push(LNumber(rng.Int63n(int64(max)-int64(min)+1) + int64(min)))
 	}
 	return 1
 }
 
 func mathRandomseed(L *LState) int {
-	rand.Seed(L.CheckInt64(1))
+	mathRng(L).Seed(L.CheckInt64(1))
 	return 0
 }
 
